@@ -658,9 +658,6 @@ func evalBody(cfg *JobCfg, target Labels, samples []Sample, breakAt int, T int64
 		}
 		seen[k] = true
 		xs := XSample{Series: series, Labels: ls, T: t, Val: s.Val, Hist: h}
-		if s.PU && s.Val == 0 && s.Hist == nil {
-			xs.Known = TagUntypedZero
-		}
 		ev.samples = append(ev.samples, xs)
 	}
 	switch {
